@@ -27,6 +27,9 @@ structure St where
   -- real-size case
   bigN : Nat := 0
   bigLen : Nat := 0
+  -- multi-chunk rebuild case
+  midLen : Nat := 0        -- shard length by the model's encoder loops
+  midImplLen : Nat := 0    -- shard length the implementation reported
 
 def chunks (w : Nat) : Nat → List Nat → List (List Nat)
   | 0, _ => []
@@ -168,6 +171,35 @@ def step (st : St) (n : Nat) (ln : Line) : St × List String :=
       else if rowCountAmbiguous genK genL genS encStrict st.bigN then some "LocateEcShardNeedle/large-row-count-from-shard-size"
       else some "ecread/wrong-bytes"
     (st, diff n ln model ++ judgeOut n j s!"L={genL} S={genS} n={st.bigN} off={off} size={size}" ++ ["COV big.read"])
+  | "resetmid" =>
+    let L := tokNat (a.getD 0 ""); let S := tokNat (a.getD 1 ""); let buf := tokNat (a.getD 2 ""); let nn := tokNat (a.getD 3 "")
+    let cfg : EncCfg := { k := st.k, L := L, S := S, buf := buf, strict := encStrict }
+    let mlen := (encRows cfg nn).foldl (fun acc r => acc + r.2) 0
+    let len := shardLen st.k L S encStrict nn
+    let d := if mlen == len then [] else [s!"DIFF {n} resetmid loop/closed-form shard length differ {mlen} {len}"]
+    ({ st with L := L, S := S, buf := buf, midLen := mlen, midImplLen := tokNat (o.getD 1 "") },
+      diff n ln ["ok", toString mlen] ++ d ++ [if mlen > genS then "COV mid.shard-above-chunk" else "COV mid.shard-within-chunk"])
+  | "rebuildmid" =>
+    let mask := tokNat (a.getD 0 "")
+    let tot := st.k + st.m
+    let presentMask := (bitsOf mask tot).map (!·)
+    let lost := (List.range tot).filter fun i => !(presentMask.getD i true)
+    let lens := presentMask.map fun p => if p then some st.midLen else none
+    -- the loop on lengths; every chunk's content is Reconstruct's, i.e. the original (ec_rebuild_concrete)
+    let r := rebuildLen st.k genS lens
+    let nChunks := fun (len : Nat) => (len + genS - 1) / genS
+    let model := match r with
+      | some w => "ok" :: lost.map fun _ => s!"{w}:{if nChunks st.midLen = 0 then "-" else String.ofList (List.replicate (nChunks st.midLen) (if w == st.midLen then '1' else '0'))}"
+      | none => ["err"]
+    let implOk := o.getD 0 "" == "ok"
+    let regen := (o.drop 1).map fun t =>
+      match t.splitOn ":" with
+      | [l, f] => (tokNat l, f.toList.filter (· != '-') |>.map (· == '1'))
+      | _ => (0, [])
+    let j := rebuildChunksJudge st.m genS st.midImplLen lost implOk regen
+    (st, diff n ln model ++ judgeOut n j s!"L={st.L} S={st.S} shardLen={st.midImplLen} lostmask={mask}"
+      ++ [if lost.length ≤ st.m then (if nChunks st.midLen > 1 then "COV rebuildmid.multi-chunk" else "COV rebuildmid.one-chunk") else "COV rebuildmid.too-many-lost"]
+      ++ [if r.isSome then "COV rebuildmid.ok" else "COV rebuildmid.err"])
   | _ => (st, [s!"DIFF {n} unknown-op {ln.op}"])
 
 def main : IO Unit := run { init := ({} : St), step := step }
